@@ -352,8 +352,13 @@ func BuildBase(name string, cfg Config, seed uint32) (*Base, error) {
 		bb.put("e")
 		bb.put("e")
 		return bb.finish([]string{"a", "b", "c", "d", "e", "n"}, nil)
-	case "T":
-		// the current segment ends 10 bytes before a 512-byte boundary: the next record is always torn-able
+	case "T", "T3":
+		// the current segment ends 10 (T) or 3 (T3: inside the 6-byte length prefix of the next record) bytes
+		// before a 512-byte boundary: the next record is always torn-able
+		short := int64(10)
+		if name == "T3" {
+			short = 3
+		}
 		bb.key("a", 0x11110000)
 		bb.key("b", 0x22220001)
 		bb.key("c", 0x11110000)
@@ -366,11 +371,11 @@ func BuildBase(name string, cfg Config, seed uint32) (*Base, error) {
 		}
 		bb.put("a")
 		bb.put("b")
-		// pad so that the segment ends at 1024-10
+		// pad so that the segment ends at 1024-short
 		if bb.err == nil {
 			segs := bb.s.DB.VerifSegments()
 			size := segs[len(segs)-1].Size
-			pad := int(1024 - 10 - size - (6 + 8 + 4))
+			pad := int(1024 - short - size - (6 + 8 + 4))
 			if pad < 0 {
 				bb.err = fmt.Errorf("base T: segment already %d bytes", size)
 			} else {
